@@ -13,9 +13,11 @@ import json, os, re, shutil, subprocess, sys, time
 
 ID, N = sys.argv[1], sys.argv[2]
 args = sys.argv[3:]
-SRC = f"/tmp/seed/{ID}/out"
+SEED_DIR = os.environ.get("SEED_DIR", "/tmp/seed")
+TAG = os.environ.get("SEED_TAG", "")  # e.g. "r2" for the second round
+SRC = f"{SEED_DIR}/{ID}/out"
 diff, demo, note = f"{SRC}/m{N}.diff", f"{SRC}/m{N}_demo.rs", f"{SRC}/m{N}.md"
-KEPT = f"/verif/seeded/{ID}-m{N}"
+KEPT = f"/verif/seeded/{ID}-{TAG}m{N}"
 if not os.path.exists(diff) and os.path.exists(f"{KEPT}/patch.diff"):
     # already kept: re-run phase 2 from the committed copy
     diff, demo = f"{KEPT}/patch.diff", f"{KEPT}/demo.rs"
@@ -36,7 +38,7 @@ def suite(cwd, extra=""):
 
 
 def main():
-    meta = {"property": ID, "mutant": f"m{N}", "source": "independent sub-agent given only the property text and a scratch worktree"}
+    meta = {"property": ID, "mutant": f"{TAG}m{N}", "source": "independent sub-agent given only the property text and a scratch worktree"}
     confirm_file = f"{SRC}/m{N}.confirm.json"
     if "--phase2" in args:
         if not os.path.exists(confirm_file) and os.path.exists(f"{KEPT}/meta.json"):
@@ -141,7 +143,7 @@ def phase2(meta):
         sh("git checkout -- .", cwd="/repo")
     meta["checks_quick"] = results
     meta["caught_by"] = [c for c, r in results.items() if r["caught"]]
-    out_dir = f"/verif/seeded/{ID}-m{N}"
+    out_dir = KEPT
     os.makedirs(out_dir, exist_ok=True)
     if os.path.abspath(diff) != os.path.abspath(f"{out_dir}/patch.diff"):
         shutil.copy(diff, f"{out_dir}/patch.diff")
